@@ -507,10 +507,10 @@ Qed.
 (* partial: the Fibonacci heap inside bounds.sort is a validated oracle here.  For every sequence of key
    comparisons and pops (ops) the heap may perform - each pop being accepted only when the comparison outcomes
    so far imply that the popped item is a minimum of what is left - the result is a permutation of the input in
-   non-decreasing final order, and the comparisons never run out of fuel.  Missing for the full statement: a
-   proof that graphtage.fibonacci.FibonacciHeap driven by the auto-tightening comparator only ever performs
-   justified pops and pops everything (C16 restated for a comparator that is only consistent with the final
-   order); the harness checks this on every run (BadTrace fails corr_C17). *)
+   non-decreasing final order, and the comparisons never run out of fuel.  The full statement - the real
+   graphtage.fibonacci.FibonacciHeap driven by the auto-tightening comparator, no heap oracle - is
+   SortProofs.C17_sort_model; this lemma is kept because corr_C17 still validates the observed trace with it
+   (BadTrace fails corr_C17). *)
 Theorem C17_sort_partial_model items ops fuel :
   Forall (fun s => wf_sched s = true) items -> (fuel_for items <= fuel)%nat ->
   match sort_model fuel (mkMs items []) (seq 0 (length items)) ops with
@@ -1167,6 +1167,66 @@ Proof.
   apply is_min_final_intro; auto.
 Qed.
 
+
+(* -- `for node in list(min_node)`: modelling only its first node is without loss of generality.  Whatever the loop
+   does after a first node whose tighten_bounds() returned False (`alt`, an arbitrary function of the state at that
+   point), a run of the specialised model that ends in Done is also the run of the general one: the continuation is
+   never entered. *)
+Lemma stb_finish_refines k kg start s' m' t x :
+  (forall s m y, k s m = Done y -> kg s m = Done y) ->
+  stb_finish k start s' m' t = Done x -> stb_finish kg start s' m' t = Done x.
+Proof.
+  intros Hk. unfold stb_finish. cbv zeta.
+  destruct (rv_ltb (lo start) (lo (sbounds s' m')) || rv_ltb (hi (sbounds s' m')) (hi start)); auto.
+  destruct (is_none (unp s') && negb t); auto.
+Qed.
+
+Lemma stb_body_g_refines alt k kg start s m x :
+  (forall s m y, k s m = Done y -> kg s m = Done y) ->
+  stb_body k start s m = Done x -> stb_body_g alt kg start s m = Done x.
+Proof.
+  intros Hk. unfold stb_body, stb_body_g. cbv zeta.
+  destruct (unt (stb_pull s m)) as [|p r]; [apply stb_finish_refines; auto|].
+  destruct (if is_none (unp (stb_pull s m)) then stb_len1 (stb_pull s m) m else (stb_pull s m, m)) as [s2 m2].
+  destruct (is_none (unp (stb_pull s m)) && goal_test s2 m2); [auto|].
+  destruct (unt s2) as [|[i k0] r2]; [auto|].
+  destruct (tighten m2 i) as [[|] m3]; [apply stb_finish_refines; auto|discriminate].
+Qed.
+
+Lemma stb_loop_g_refines alt : forall fuel start s m x,
+  stb_loop fuel start s m = Done x -> stb_loop_g alt fuel start s m = Done x.
+Proof.
+  induction fuel; intros start s m x H; simpl in *; [discriminate|].
+  eapply stb_body_g_refines; [|exact H]. intros s' m' y. apply IHfuel.
+Qed.
+
+Lemma search_loop_g_refines alt inner : forall fuel s m rets x,
+  search_loop fuel inner s m rets = Done x -> search_loop_g alt fuel inner s m rets = Done x.
+Proof.
+  induction fuel; intros s m rets x H; simpl in *; [discriminate|].
+  unfold search_tighten in H. unfold search_tighten_g.
+  destruct (stb_loop inner (sbounds s m) s m) as [[[r s'] m']| | | | |] eqn:E; simpl in H; try discriminate.
+  rewrite (stb_loop_g_refines alt _ _ _ _ _ E). simpl. destruct r; auto.
+Qed.
+
+Lemma search_g_refines alt fuel m ids hints x :
+  search fuel m ids hints = Done x -> search_g alt fuel m ids hints = Done x.
+Proof.
+  unfold search, search_g. intros H.
+  destruct (search_loop fuel fuel (mkS (Some ids) [] [] hints) m []) as [[[s m'] rets]| | | | |] eqn:E;
+    simpl in H; try discriminate.
+  rewrite (search_loop_g_refines alt _ _ _ _ _ _ E). exact H.
+Qed.
+
+Theorem C17_search_general alt items hints fuel :
+  Forall (fun s => wf_sched s = true) items -> items <> [] -> (fuel_for items <= fuel)%nat ->
+  exists b r rets m', search_g alt fuel (mkMs items []) (seq 0 (length items)) hints = Done (Some b, r, rets, m') /\
+                 search fuel (mkMs items []) (seq 0 (length items)) hints = Done (Some b, r, rets, m') /\
+                 evolves (mkMs items []) m' /\ holds_search items (OSearch (Some b) r rets) = true.
+Proof.
+  intros W Ne Hf. destruct (C17_search_model items hints fuel W Ne Hf) as (b & r & rets & m' & S & E & H).
+  exists b, r, rets, m'. split; [apply search_g_refines; exact S|]. auto.
+Qed.
 
 (* ------------------------------------------------------------------ make_distinct *)
 
